@@ -135,7 +135,7 @@ func TestKnown(t *testing.T)  { kit.RunKnown(t) }
 func TestReplay(t *testing.T) { kit.RunReplay(t) }
 
 func TestHistory(t *testing.T) {
-	kit.Rapid(t, "history", 40000, 400000, func(t *rapid.T) {
+	kit.Rapid(t, "history", 40000, 1600000, func(t *rapid.T) {
 		cfg := gen.DrawConfig(t, gen.ConfigOpts{})
 		if rapid.Bool().Draw(t, "allext") {
 			cfg.GFM, cfg.Linkify, cfg.Table, cfg.Strike, cfg.Task = true, false, false, false, false
